@@ -26,6 +26,8 @@ Commands
 * `c15.fromtable <D | arg arg …>` → units or `ERR`: construction from a bare table
 * `c15.same <tolData> <radii01> | <A> | <B>` → `1|0` (`samePhysB`)
 * `c15.cmp <tolData> <tolUnits> | <A> | <B>` → `ok | diff:fields`
+* `c15.addunits <class> <property> <tol> | <units> | <raw value> | <reported quantity in base units, x,y,z or ->` →
+  `power=<d from the generated decorator sites> model=<raw × units^d per axis (metres^d)> ok=<1|0|na>` (`addUnitsB`)
 * `c15.hist <tolData> <tolUnits> <scalar01> | <in> | <par rows, comma> | <step> <step> … | <out> | <keys> | <views>` →
   `model=<neuron or ERR> corr=… caches=<ok|diff:model-keys> views=<ok|diff:names|na> phys=<1|0|na>`
   (`step`: `w:a,b,…` — the cached attributes present after a warming step (absent ones are computed from the current
@@ -409,6 +411,19 @@ def run (cmd rest : String) : Option String :=
       let x ← parseNeuron x; let par ← intList? par; let steps ← (words steps).mapM parseStep
       let out ← parseNeuron? out; let views ← parseViews views
       pure (runHistCmd tD tU (sc == "1") x par steps out (strList keys) views)
+    | _ => none
+  | "addunits", [hd, u, raw, q] =>
+    match words hd with
+    | [cls, prop, t] => do
+      let t ← parseTol t; let u ← parseUnits u; let raw ← parseRat raw
+      match addUnitsPower cls prop with
+      | none => pure "power=none model=ERR ok=na"
+      | some d =>
+        let m := addUnitsPhys d u raw
+        let ok := if trim q == "-" then "na" else match parseV3 q with
+          | some qv => b01 (addUnitsB t d u raw qv)
+          | none => "bad"
+        pure s!"power={d} model={showV3 m} ok={ok}"
     | _ => none
   | "round", [q] => do
     let q ← parseRat q
